@@ -14,6 +14,7 @@ import (
 // correspondent PUBACK is received.
 type RetryTransaction struct {
 	*TransactionBase
+	ctx           context.Context
 	retryDelay    time.Duration
 	retryCount    uint
 	retryNumMutex sync.Mutex
@@ -45,6 +46,7 @@ var ErrNoMoreRetries = errors.New("no more retries")
 func NewRetryTransaction(ctx context.Context, retryDelay time.Duration, retryCount uint, retryCallback RTRetryCallback, finally FinallyCallback) *RetryTransaction {
 	t := &RetryTransaction{
 		TransactionBase: NewTransactionBase(finally),
+		ctx:             ctx,
 		retryDelay:      retryDelay,
 		retryCount:      retryCount,
 		retryCallback:   retryCallback,
@@ -110,6 +112,12 @@ func (t *RetryTransaction) stopTimer() {
 
 func (t *RetryTransaction) restartTimer() {
 	t.stopTimer()
+	// The timer is stopped once when the context is cancelled. It must not
+	// be started again afterwards (e.g. by a paused transaction the timer of
+	// which has just fired), it would run forever.
+	if t.ctx.Err() != nil {
+		return
+	}
 	t.timer = time.AfterFunc(t.retryDelay, t.timeout)
 }
 
